@@ -9,7 +9,8 @@
 -/
 import MySensors.Lemmas.GwRel
 
-namespace MySensors
+namespace MySensors.C10
+open MySensors
 
 structure QuietRel (R : GW → GW → Prop) : Prop where
   refl : ∀ g, R g g
@@ -288,4 +289,4 @@ theorem handler_of_type (c : ConstId) :
     (Tables.tables c).mtInternal ≠ (Tables.tables c).mtStream := by
   cases c <;> decide
 
-end MySensors
+end MySensors.C10
